@@ -237,6 +237,9 @@ package tree
 //@ fn Tree.Clean
 //@   requires treeOK(tree) && allSafe() && sepOK() && lockFree(tree)
 //@   ensures [C03,C05] safe: allSafe() && sepOK()
+//@   ensures [C04] recounted: called("tree.node.clean", 1) && called("tree.Tree.rebuildMethods", 1)
+//@   atcall tree.node.clean [C03] from-the-root: arg0 == tree.node && arg1 == prefix
+//@   atcall tree.Tree.rebuildMethods [C04] after-clean: arg0 == tree && called("tree.node.clean", 1)
 //
 // Remove: the automatically managed entries follow the registered ones (C08): HEAD goes exactly when GET goes,
 // OPTIONS and the 405 entry are untouched by the per-method loop (they go together, once nothing else is left)
@@ -253,6 +256,8 @@ package tree
 //@        ((in("OPTIONS", callresult("tree.Tree.Find", 1, 0).handlers) <==> old(in("OPTIONS", callresult("tree.Tree.Find", 1, 0).handlers))) &&
 //@         (in("", callresult("tree.Tree.Find", 1, 0).handlers) <==> old(in("", callresult("tree.Tree.Find", 1, 0).handlers))))
 //@   cut tree.node.buildMethods 1 [C08] head-follows-get: in("HEAD", callresult("tree.Tree.Find", 1, 0).handlers) <==> in("GET", callresult("tree.Tree.Find", 1, 0).handlers)
+//@   inv 2 [C01,C03] reindexed: child == callresult("tree.Tree.Find", 1, 0) || idxOK(child)
+//@   atcall tree.node.buildIndexes [C01,C03] the-parent-just-changed: arg0 == child.parent
 //@   inv 1 [C08] bound: -1 <= rangeindex && rangeindex < len(methods) && callresult("tree.Tree.Find", 1, 0).handlers == old(callresult("tree.Tree.Find", 1, 0).handlers)
 //@   inv 1 [C08] head-follows-get: in("HEAD", callresult("tree.Tree.Find", 1, 0).handlers) <==> in("GET", callresult("tree.Tree.Find", 1, 0).handlers)
 //@   inv 1 [C08] automatic-kept: (in("OPTIONS", callresult("tree.Tree.Find", 1, 0).handlers) <==> old(in("OPTIONS", callresult("tree.Tree.Find", 1, 0).handlers))) &&
